@@ -261,7 +261,7 @@ Section Hist3.
   Proof.
     intros I Em M' Hmono.
     assert (W' : WInv (set_ctl w (Some m'))).
-    { pose proof (h_w w I) as Ww. destruct Ww as [a1 b1 c1 d1 e1 f1 g1 h1 i1]. constructor; cbn; try assumption.
+    { pose proof (h_w w I) as Ww. destruct Ww as [a1 b1 c1 d1 e1 f1 g1 h1 i1 j1]. constructor; cbn; try assumption.
       intros m0 E0. inversion E0; subst. exact M'. }
     assert (Hres : forall n c, reserved w n c -> reserved (set_ctl w (Some m')) n c).
     { intros n c (m0 & E0 & Hh). rewrite Em in E0. inversion E0; subst m0. exists m'. split; [reflexivity|apply Hmono; exact Hh]. }
@@ -276,13 +276,13 @@ Section Hist3.
     HInv (fst (run_node_sync po lab w cached key outs)).
   Proof.
     intros I Hc Huns. unfold run_node_sync. destruct (w_ctl w) as [m|] eqn:Em; [|exact I].
-    destruct (sync_node po lab (can_patch w key) (api_same w key) (held_cidrs (w_ncache w)) m cached (find_node key (w_ncache w)) outs)
+    destruct (sync_node po lab (svc_list (w_svc w)) (can_patch w key) (api_same w key) (held_cidrs (w_ncache w)) m cached (find_node key (w_ncache w)) outs)
       as [[m' r] fx] eqn:Es.
     cbn [fst]. pose proof (wi_ctl w (h_w w I) m Em) as M.
     destruct (res_eq_panic r) as [->|Hnp].
-    { rewrite (sync_node_panic_writes_nothing _ _ _ _ _ _ _ _ _ _ _ M Es). cbn. apply crashed_hinv. exact I. }
-    destruct (sync_node_keeps _ _ _ _ _ _ _ _ _ _ _ _ M Hc Hnp Es) as (Hmono & Havoid & Hkept).
-    assert (M' : MapInv m') by (eapply sync_node_inv; [exact M|intros n E; apply (Hc n E)|exact Es]).
+    { rewrite (sync_node_panic_writes_nothing _ _ _ _ _ _ _ _ _ _ _ _ M Es). cbn. apply crashed_hinv. exact I. }
+    destruct (sync_node_keeps _ _ _ _ _ _ _ _ _ _ _ _ _ M Hc Hnp Es) as (Hmono & Havoid & Hkept).
+    assert (M' : MapInv m') by (eapply sync_node_inv; [exact M|exact (wi_svc w (h_w w I))|intros n E; apply (Hc n E)|exact Es]).
     assert (Hac : after_call w r m' = set_ctl w (Some m')) by (unfold after_call; destruct r; [reflexivity|reflexivity|contradiction]).
     assert (IA : HInv (after_call w r m')) by (rewrite Hac; eapply set_ctl_hinv; eassumption).
     assert (Hholders : forall n c, holder (after_call w r m') n c <-> holder w n c) by (intros; rewrite Hac; unfold holder; cbn; tauto).
@@ -290,17 +290,17 @@ Section Hist3.
     - (* a PATCH exists: the informers run, and every other holder is protected *)
       assert (Hs : w_synced w = true).
       { destruct (w_synced w) eqn:E; [reflexivity|]. rewrite (Huns eq_refl) in Es. cbn in Es. inversion Es; subst. destruct Hin. }
-      pose proof (sync_node_patches po lab _ _ _ _ _ _ _ _ _ _ Es _ _ _ Hin) as (_ & _ & Hunheld).
+      pose proof (sync_node_patches po lab _ _ _ _ _ _ _ _ _ _ _ Es _ _ _ Hin) as (_ & _ & Hunheld).
       apply (apply_effects_hinv fx _ nm cs IA).
-      + exact (sync_node_patches_wf po lab _ _ _ _ _ _ _ _ _ _ M Es nm cs o Hin).
-      + intros nm' cs' o' Hin'. exact (sync_node_patches_same _ _ _ _ _ _ _ _ _ _ _ _ Es _ _ _ _ _ _ Hin' Hin).
+      + exact (sync_node_patches_wf po lab _ _ _ _ _ _ _ _ _ _ _ M Es nm cs o Hin).
+      + intros nm' cs' o' Hin'. exact (sync_node_patches_same _ _ _ _ _ _ _ _ _ _ _ _ _ Es _ _ _ _ _ _ Hin' Hin).
       + intros n2 d Hh Hne x Hx. apply Hholders in Hh. destruct (h_prot w I Hs n2 d Hh) as [(m0 & E0 & Hheld)|Hcached].
         * rewrite Em in E0. inversion E0; subst m0. eapply Havoid; [exact Hin|exact Hheld|exact Hx].
         * unfold all_unheld in Hunheld. rewrite Forall_forall in Hunheld.
           apply (in_use_by_node_false _ _ (Hunheld x Hx)). eapply cached_in_held. exact Hcached.
       + intros (o' & Hin' & Ho') x Hx. rewrite Hac. exists m'. split; [reflexivity|].
         eapply Hkept; [exact Hin'| |exact Hx].
-        exact (sync_node_applied_is_kept _ _ _ _ _ _ _ _ _ _ _ _ M Es _ _ _ Hin' Ho').
+        exact (sync_node_applied_is_kept _ _ _ _ _ _ _ _ _ _ _ _ _ M Es _ _ _ Hin' Ho').
     - apply (apply_effects_hinv fx _ key [] IA); [constructor| | |].
       + intros nm' cs' o' Hin'. destruct (Hno _ _ _ Hin').
       + intros n2 d _ _ x [].
@@ -359,7 +359,7 @@ Section Hist3.
     assert (Hdel : n_deleting n = false).
     { pose proof (h_feed_nd w I e ltac:(rewrite Ef; left; reflexivity)) as H. destruct He as [-> | ->]; exact H. }
     assert (W0 : WInv (set_caches w (w_ncache w) (w_ccache w) rest (w_cfeed w))).
-    { pose proof (h_w w I) as Ww. destruct Ww as [a1 b1 c1 d1 e1 f1 g1 h1 i1]. constructor; cbn; try assumption. rewrite Ef in c1. inversion c1; assumption. }
+    { pose proof (h_w w I) as Ww. destruct Ww as [a1 b1 c1 d1 e1 f1 g1 h1 i1 j1]. constructor; cbn; try assumption. rewrite Ef in c1. inversion c1; assumption. }
     assert (Hen : nev_node e = n) by (destruct He as [-> | ->]; reflexivity).
     pose proof (handle_nevent_winv (set_caches w (w_ncache w) (w_ccache w) rest (w_cfeed w)) e W0 ltac:(rewrite Hen; exact Hwe)) as Wh.
     assert (Hcopy_n : copy_of w n) by (destruct He as [-> | ->]; [right; left|right; right]; rewrite Ef; left; reflexivity).
@@ -517,7 +517,7 @@ Section Hist3.
       assert (Hwe : wf_node (nev_node e)) by (pose proof (wi_nfeed w (h_w w I)) as Hf; rewrite Ef in Hf; inversion Hf; assumption).
       assert (Hdel : n_deleting (nev_node e) = false) by (apply (h_feed_nd w I); rewrite Ef; left; reflexivity).
       assert (W0 : WInv (set_caches w (w_ncache w) (w_ccache w) rest (w_cfeed w))).
-      { pose proof (h_w w I) as Ww. destruct Ww as [a1 b1 c1 d1 e1 f1 g1 h1 i1]. constructor; cbn; try assumption. rewrite Ef in c1. inversion c1; assumption. }
+      { pose proof (h_w w I) as Ww. destruct Ww as [a1 b1 c1 d1 e1 f1 g1 h1 i1 j1]. constructor; cbn; try assumption. rewrite Ef in c1. inversion c1; assumption. }
       pose proof (handle_nevent_winv (set_caches w (w_ncache w) (w_ccache w) rest (w_cfeed w)) e W0 Hwe) as Wh.
       destruct e as [n|n|n]; [exact (deliver_put_hinv w (NAdd n) rest n (or_introl eq_refl) I Ef Hsy)|exact (deliver_put_hinv w (NUpd n) rest n (or_intror eq_refl) I Ef Hsy)|].
       unfold handle_nevent in *. cbn [nev_node] in *.
@@ -535,11 +535,11 @@ Section Hist3.
         assert (Hcached : forall nm c, nm <> n_name n -> cached_c w nm c -> cached_c (set_caches w (del_node (n_name n) (w_ncache w)) (w_ccache w) rest (w_cfeed w)) nm c).
         { intros nm c Hne (y & Hy & Hn & Hc). exists y. split; [|split; assumption]. cbn. unfold del_node. apply filter_In. split; [exact Hy|].
           destruct (str_eqb (n_name y) (n_name n)) eqn:E; [apply str_eqb_eq in E; congruence|reflexivity]. }
-        cbn [set_caches w_ctl] in *. destruct (w_ctl w) as [m|] eqn:Em.
+        cbn [set_caches w_ctl w_svc] in *. destruct (w_ctl w) as [m|] eqn:Em.
         * pose proof (wi_ctl w (h_w w I) m Em) as M.
-          destruct (release_cidr m n) as [m' r] eqn:Er.
+          destruct (release_cidr (svc_list (w_svc w)) m n) as [m' r] eqn:Er.
           assert (Hkeep : forall nm c, holder w nm c -> nm <> n_name n -> Held m nm c -> Held m' nm c).
-          { intros nm c Hc Hne Hh. eapply (release_cidr_keeps m n m' r M Hwe Er nm c Hh Hne).
+          { intros nm c Hc Hne Hh. eapply (release_cidr_keeps _ m n m' r M (wi_svc w (h_w w I)) Hwe Er nm c Hh Hne).
             intros c0 canon Hc0. apply (h_disj w I (n_name n) c0 nm c); [|exact Hc|congruence].
             right. exists n, canon. split; [rewrite Ef; left; reflexivity|split; [reflexivity|exact Hc0]]. }
           assert (Hres : forall nm c w1, w_ctl w1 = Some m' -> holder w nm c -> nm <> n_name n -> reserved w nm c -> reserved w1 nm c).
@@ -570,7 +570,7 @@ Section Hist3.
              ++ intros Hs. rewrite Hsy in Hs. discriminate Hs.
              ++ intros E0. discriminate E0.
           -- apply (crashed_hinv_of w); [exact I| |reflexivity].
-             pose proof (h_w w I) as Ww. destruct Ww as [a1 b1 c1 d1 e1 f1 g1 h1 i1]. constructor; cbn; try assumption.
+             pose proof (h_w w I) as Ww. destruct Ww as [a1 b1 c1 d1 e1 f1 g1 h1 i1 j1]. constructor; cbn; try assumption.
              ++ rewrite Ef in c1. inversion c1; assumption.
              ++ apply Forall_del_node. exact e1.
         * exfalso. pose proof (h_down w I Em) as Hd. rewrite Hsy in Hd. discriminate Hd.
@@ -597,7 +597,7 @@ Section Hist3.
       apply find_some in Ef. destruct Ef as [Hin _].
       apply run_node_sync_hinv.
       + pose proof I as I0. hsplit I; try assumption.
-        * pose proof (h_w w I0) as Ww. destruct Ww as [a1 b1 c1 d1 e1 f1 g1 h1 i1]. constructor; cbn; try assumption.
+        * pose proof (h_w w I0) as Ww. destruct Ww as [a1 b1 c1 d1 e1 f1 g1 h1 i1 j1]. constructor; cbn; try assumption.
           intros wk' k n Hi. apply filter_In in Hi. destruct Hi as [Hi _]. eapply g1. exact Hi.
         * intros wk' k n Hi. apply filter_In in Hi. destruct Hi as [Hi _]. eapply Hft. exact Hi.
         * intros Hs. destruct (Hun Hs) as (A & B & C). split; [exact A|]. split; [exact B|].
@@ -610,7 +610,7 @@ Section Hist3.
       apply find_some in Ef. destruct Ef as [Hin _].
       apply run_cc_sync_hinv.
       + apply (hinv_same w); try reflexivity; [exact I|].
-        pose proof (h_w w I) as Ww. destruct Ww as [a1 b1 c1 d1 e1 f1 g1 h1 i1]. constructor; cbn; try assumption.
+        pose proof (h_w w I) as Ww. destruct Ww as [a1 b1 c1 d1 e1 f1 g1 h1 i1 j1]. constructor; cbn; try assumption.
         intros wk' k n Hi. apply filter_In in Hi. destruct Hi as [Hi _]. eapply h1. exact Hi.
       + intros n E. subst cached. eapply (wi_cfetch w (h_w w I)). exact Hin.
     - (* ProcNode *)
@@ -656,8 +656,8 @@ Section Hist3.
         eapply construct_inv; [exact (wi_ccs w (h_w w I))| |exact H1|exact H2|exact Ec].
         rewrite Forall_forall. intros n Hin. apply in_map_iff in Hin. destruct Hin as (a & <- & Ha). apply wf_node_view. eapply in_anodes_wf; [exact (h_w w I)|exact Ha]. }
       pose proof I as I0. hsplit I; try assumption.
-      + pose proof (h_w w I0) as Ww. destruct Ww as [a1 b1 c1 d1 e1 f1 g1 h1 i1].
-        constructor; cbn; [assumption|assumption|constructor|constructor|constructor|constructor|intros; contradiction|intros; contradiction|exact M].
+      + pose proof (h_w w I0) as Ww. destruct Ww as [a1 b1 c1 d1 e1 f1 g1 h1 i1 j1].
+        constructor; cbn; [assumption|assumption|constructor|constructor|constructor|constructor|intros; contradiction|intros; contradiction|exact M|apply svc_list_wf; assumption].
       + intros e [].
       + intros n [].
       + intros wk key n [].
